@@ -10,20 +10,25 @@ META = {
                  "verified boolean checkers evaluated by vm_compute on the recorded output of the real "
                  "group_observables / compute_partition_indices / diagonalize_qwc_pauli_words (graph colouring = validated oracle)",
     "design_ref": "DESIGN.md §3 C52",
-    "text": "Kernel-checked theorems (Props/C52.v), all universally quantified: the symplectic adjacency computation of "
-            "_adj_matrix_from_symplectic equals the direct definition of qwc / commuting / anticommuting for all word lists; "
-            "qwc implies commuting; ANY colouring accepted by the checker `properb` yields index groups that partition the "
-            "indices with pairwise related members; `valid_grouping` is sound; the find-and-pop routing of _partition_coeffs "
-            "preserves the multiset of (word, coefficient) pairs; group_observables (rustworkx path) is a valid grouping "
-            "whenever no wire-less observable meets grouping type anticommuting (that corner is REFUTED by a kernel-checked "
-            "counterexample); the per-wire rotations chosen for a qwc group conjugate every member to its Z/I word with sign +1, "
-            "the conjugation table being derived from 2x2 Gaussian-integer matrices of sqrt2*RY(-pi/2), sqrt2*RX(pi/2). "
-            "Tie: on every run random word sets (duplicates, identities, wire-less identities, mixed wire labels) x 3 grouping "
-            "types x 4 colouring methods go through the real functions; Coq evaluates the model on the same inputs (binary "
-            "matrix, both adjacency matrices, groups, coefficient groups, partition indices, strategy indices, diagonalising "
-            "gates and words must all be equal) and evaluates the verified checkers on the implementation's own output and on "
-            "the recorded colouring; a Python direct oracle re-checks partition / relation / coefficients and, for <= 4 wires, "
-            "numerically that U P U^dagger is diagonal and equals the returned Z-word with the same coefficient.",
+    "text": "13 kernel-checked theorems (Props/C52.v), all universally quantified over word lists / colourings: the symplectic "
+            "adjacency computation of _adj_matrix_from_symplectic equals the negated direct definition of qwc / commuting / "
+            "anticommuting entry by entry; the relations are symmetric; qwc implies commuting; binary_to_pauli inverts "
+            "pauli_to_binary; ANY colouring accepted by the checker `properb` yields index groups that contain each index exactly "
+            "once with pairwise related members; `valid_grouping` is sound; the find-and-pop routing of _partition_coeffs / "
+            "_compute_partition_indices_rlf only rearranges the (word, coefficient|index) pairs and keeps group shapes; "
+            "group_observables (rustworkx path) returns a partition into pairwise related groups whenever no wire-less observable "
+            "meets grouping type anticommuting (that corner is REFUTED by a kernel-checked counterexample and reported as a "
+            "finding on the real code); a pairwise qwc group always has a common basis and the per-wire rotations chosen for it "
+            "conjugate every member to its Z/I word with sign +1 (coefficient unchanged), the conjugation table being derived "
+            "from 2x2 Gaussian-integer matrices of sqrt2*RY(-pi/2), sqrt2*RX(pi/2) which are compared with qp.matrix on every run. "
+            "Tie: random word sets (duplicates, identity on a wire, wire-less identity, int/str wire labels, explicit Identity "
+            "factors) x 3 grouping types x 4 colouring methods go through the real group_observables, compute_partition_indices, "
+            "PauliGroupingStrategy and diagonalize_qwc_pauli_words; Coq evaluates the model on the same inputs (binary matrix, both "
+            "adjacency matrices, groups, coefficient groups, partition indices, strategy indices, diagonalising gates and words must "
+            "all be equal) and evaluates the verified checkers on the implementation's own output and on the recorded colouring "
+            "(rustworkx / rlf output validated, not trusted); a Python direct oracle re-checks partition / relation / coefficient "
+            "multiset and, for <= 4 wires, numerically that U P U^dagger is diagonal and equals the returned Z-word with the same "
+            "coefficient (also for scalar multiples of the members).",
     "note": "The colouring heuristics (rustworkx graph_greedy_color lf/dsatur/gis and the repo's recursive_largest_first) are "
             "NOT modelled: their recorded result is validated per case by the verified checker (so properness is checked, "
             "not proved, and optimality of the number of groups is not addressed). Wire labels -> positions (first appearance) "
@@ -308,7 +313,7 @@ def run(ctx):
     if getattr(ctx, "replay", None) and isinstance(ctx.replay.get("replay", {}).get("case"), dict):
         cases = [ctx.replay["replay"]["case"]]
     else:
-        n = 500 if ctx.tier == "quick" else 6000
+        n = 400 if ctx.tier == "quick" else 6000
         cases = [dict(c) for c in CORPUS]
         while len(cases) < n:
             cases.append(gen_case(rng, ctx.tier))
@@ -326,7 +331,7 @@ def run(ctx):
     hdr = "From PLV Require Import Disc.GroupingModel."
     # one pass: model = implementation AND the verified checkers accept the implementation's output;
     # the (few) failing cases are re-evaluated to tell the two apart
-    both = ctx.coq_eval_cases("cases", hdr, terms, "check_both", chunk=90)
+    both = ctx.coq_eval_cases("cases", hdr, terms, "check_both", chunk=60)
     bad, badv = [], set()
     if both:
         sub = ctx.coq_eval_cases("recheck", hdr, [terms[i] for i in both], "check_case", chunk=90)
